@@ -250,7 +250,7 @@ FLIP = {"Lt": "Gt", "Le": "Ge", "Gt": "Lt", "Ge": "Le", "Eq": "Eq", "Ne": "Ne"}
 
 def binop(op, a, b, ty):
     base = op.replace("WithOverflow", "").replace("Unchecked", "")
-    if a[0] in ("cases", "ite") and is_c(b) and base in CMP | {"BitAnd", "Shr", "Shl", "Add", "Sub", "Mul", "Div", "Rem", "BitOr"}:
+    if a[0] in ("cases", "ite") and is_c(b) and ty in INT_TYS and base in CMP | {"BitAnd", "Shr", "Shl", "Add", "Sub", "Mul", "Div", "Rem", "BitOr"}:
         return map_leaves(a, lambda x: binop(op, x, b, ty))
     if ty in INT_TYS:
         if is_c(a) and is_c(b):
@@ -332,6 +332,44 @@ def cast(a, frm, to):
 
 
 # ---------------------------------------------------------------- evaluator
+def normal_exit(fn, head, body):
+    """exit target taken when the loop's controlling test ends the loop: the first exit edge found walking the
+    blocks from the head along the straight-line prefix (the `next() == None` edge of a for loop, the false edge of a
+    while test)"""
+    b = head
+    seen = set()
+    while b in body and b not in seen:
+        seen.add(b)
+        ss = fn.succ_map()[b]
+        outs = [s for s in ss if s not in body]
+        if outs:
+            return outs[0]
+        t = fn.blocks[b]["term"]
+        if t["t"] == "switch":
+            # test block with all successors inside the loop: not the controlling test
+            nxt = [s for s in ss if fn.blocks[s]["term"]["t"] != "unreachable"]
+            if len(nxt) != 1:
+                return None
+            b = nxt[0]
+        elif len(ss) == 1:
+            b = ss[0]
+        else:
+            return None
+    return None
+
+
+def _leaves(t, out):
+    if isinstance(t, tuple) and t and t[0] == "cases":
+        for rs, x in t[3]:
+            _leaves(x, out)
+    elif isinstance(t, tuple) and t and t[0] == "ite":
+        _leaves(t[2], out)
+        _leaves(t[3], out)
+    else:
+        out.append(t)
+    return out
+
+
 class Evaluator:
     """Evaluates functions of a Prog symbolically. `models` maps callee paths to python
     functions (ev, args:list[term], call-terminator) -> term (or None to fall through)."""
@@ -347,6 +385,11 @@ class Evaluator:
         self.asserts = []       # (fn path, assert kind, cond term, path-condition) encountered
         self.fresh = 0
         self.stop = None        # (fn path, loop head, body set, tracked locals) for eval_loop_body
+        self._joins = {}
+        self._jid = 0
+        self._discr_src = {}
+        self.summarize_loops = False   # when set, an inner loop is replaced by a havoc of the locals it assigns
+        self.no_skip = set()            # loop heads that must be entered rather than summarised
 
     # ---- entry points
     def eval_fn(self, path, args, depth=0):
@@ -393,6 +436,8 @@ class Evaluator:
         if e == "*":
             if v[0] == "box":
                 return v[1]
+            if v[0] == "mref":
+                return self._mref_get(env, v)
             return v
         if "f" in e:
             if v[0] == "down":
@@ -401,7 +446,7 @@ class Evaluator:
                     for n, x in base[3]:
                         if n == (e.get("name") or str(e["f"])):
                             return x
-                return ("vfld", base, vname, e.get("name") or str(e["f"]))
+                return vfld(base, vname, e.get("name") or str(e["f"]))
             if v[0] == "tuple":
                 return v[1][e["f"]]
             if v[0] == "ovf":       # (result, overflowed) pair of a checked operation
@@ -424,7 +469,22 @@ class Evaluator:
             env[pl["l"]] = val
             return
         base = env.get(pl["l"], ("uninit",))
+        if base[0] == "mref" and pl["p"] and pl["p"][0] == "*":
+            tgt = base[1]
+            proj = [{"f": i, "name": n} for n, i in base[2]] + list(pl["p"][1:])
+            env[tgt] = self._update(env.get(tgt, ("uninit",)), proj, val)
+            return
         env[pl["l"]] = self._update(base, pl["p"], val)
+
+    def _mref_get(self, env, m):
+        v = env.get(m[1], ("uninit",))
+        for n, i in m[2]:
+            v = self._project(None, env, v, {"f": i, "name": n})
+        return v
+
+    def _mref_set(self, env, m, val):
+        proj = [{"f": i, "name": n} for n, i in m[2]]
+        env[m[1]] = self._update(env.get(m[1], ("uninit",)), proj, val)
 
     def _update(self, base, proj, val):
         if not proj:
@@ -483,7 +543,17 @@ class Evaluator:
         if r == "use":
             return self.operand(fn, env, s["a"])
         if r == "ref" or r == "rawptr":
-            return self.read_place(fn, env, s["pl"])     # references are transparent (value semantics)
+            pl = s["pl"]
+            if s.get("bk", "").startswith("Mut"):
+                base = env.get(pl["l"], ("uninit",))
+                if pl["p"] and pl["p"][0] == "*" and base[0] == "mref":
+                    rest = pl["p"][1:]
+                    if all(isinstance(e, dict) and "f" in e for e in rest):
+                        return ("mref", base[1], base[2] + tuple((e.get("name") or str(e["f"]), e["f"]) for e in rest))   # reborrow (of a field)
+                elif all(isinstance(e, dict) and "f" in e for e in pl["p"]) and base[0] != "mref":
+                    # frame-local mutable borrow of a local or of one of its (nested) fields
+                    return ("mref", pl["l"], tuple((e.get("name") or str(e["f"]), e["f"]) for e in pl["p"]))
+            return self.read_place(fn, env, pl)         # shared references are transparent (value semantics)
         if r == "bin":
             a = self.operand(fn, env, s["a"])
             b = self.operand(fn, env, s["b"])
@@ -506,7 +576,10 @@ class Evaluator:
             return ("cast", a, s["from"]["s"], s["ty"]["s"])
         if r == "discr":
             v = self.read_place(fn, env, s["pl"])
-            return self.discriminant(v)
+            d = self.discriminant(v)
+            if v[0] in ("cases", "ite") and d[0] in ("cases", "ite"):
+                self._discr_src[d] = v
+            return d
         if r == "agg":
             ops = [self.operand(fn, env, o) for o in s["ops"]]
             ak = s["ak"]
@@ -542,8 +615,12 @@ class Evaluator:
         return None
 
     # ---- control flow
-    def _run(self, fn, bb, env, visits, depth):
+    def _run(self, fn, bb, env, visits, depth, until=None):
         while True:
+            if until is not None and bb == until:
+                self._jid += 1
+                self._joins[self._jid] = (env, visits)
+                return ("@join", self._jid)
             self.steps += 1
             if self.steps > MAXSTEPS:
                 raise Undecided("step budget exceeded in " + fn.path)
@@ -552,6 +629,10 @@ class Evaluator:
                     return ("next", tuple(env.get(l, ("uninit",)) for l in self.stop[3]))
                 if bb not in self.stop[2]:
                     return ("exit", bb)
+            if self.summarize_loops and visits.get(bb, 0) == 0:
+                lp = fn.loops()
+                if bb in lp and bb not in self.no_skip and not (self.stop is not None and fn.path == self.stop[0] and bb == self.stop[1]):
+                    return self._skip_loop(fn, bb, lp[bb], env, visits, depth, until)
             visits = dict(visits)
             visits[bb] = visits.get(bb, 0) + 1
             if visits[bb] > 70:
@@ -590,7 +671,7 @@ class Evaluator:
                             break
                     bb = nxt
                     continue
-                return self._branch(fn, t, d, dty, env, visits, depth)
+                return self._branch_join(fn, bb, t, d, dty, env, visits, depth, until)
             if k == "call":
                 if t.get("target") is None:
                     # diverging call (panic): this path has no value
@@ -601,7 +682,116 @@ class Evaluator:
                 continue
             raise Undecided("terminator %s in %s" % (k, fn.path))
 
-    def _branch(self, fn, t, d, dty, env, visits, depth):
+    def _skip_loop(self, fn, head, body, env, visits, depth, until):
+        """summarise a (symbolic) inner loop: every local assigned inside it becomes an opaque atom, and evaluation
+        resumes at each of the loop's exit targets under an opaque selector ('loopexit', head)"""
+        env = dict(env)
+        assigned = set()
+        for b in body:
+            blk = fn.blocks[b]
+            for s in blk["stmts"]:
+                if s["s"] == "assign":
+                    assigned.add(s["dst"]["l"])
+            tt = blk["term"]
+            if tt["t"] == "call":
+                assigned.add(tt["dest"]["l"])
+                for a in tt["args"]:
+                    if a.get("k") in ("copy", "move"):
+                        ty = fn.locals[a["pl"]["l"]]["ty"]
+                        if ty.get("k") == "ref" and ty.get("mut"):
+                            assigned.add(a["pl"]["l"])
+        # locals mutably borrowed inside the loop
+        for b in body:
+            for s in fn.blocks[b]["stmts"]:
+                if s["s"] == "assign" and s.get("rv") == "ref" and s.get("bk", "").startswith("Mut"):
+                    assigned.add(s["pl"]["l"])
+        for l in assigned:
+            cur = env.get(l)
+            if cur is not None and cur[0] == "mref":
+                continue
+            env[l] = ("after_loop", head, l, cur if cur is not None else ("uninit",))
+        exits = []
+        for b in sorted(body):
+            for s2 in fn.succ_map()[b]:
+                if s2 not in body and s2 not in exits and fn.blocks[s2]["term"]["t"] != "unreachable":
+                    exits.append(s2)
+        # the normal exit (None edge of the loop's own iterator / the loop test) goes first: selector value 0
+        ne = normal_exit(fn, head, body)
+        if ne in exits:
+            exits.remove(ne)
+            exits.insert(0, ne)
+        v2 = dict(visits)
+        v2[head] = 1
+        arms = []
+        for i, e in enumerate(exits):
+            arms.append((((i, i),), self._run(fn, e, dict(env), v2, depth, until)))
+        if len(arms) == 1:
+            return arms[0][1]
+        arms[-1] = (rs_compl(tuple(r for a in arms[:-1] for r in a[0]), "isize"), arms[-1][1])
+        return mk_cases(("loopexit", fn.path, head), "isize", tuple(arms))
+
+    def _branch_join(self, fn, bb, t, d, dty, env, visits, depth, until):
+        """evaluate the arms of a symbolic branch up to their join block (immediate post-dominator), merge the
+        environments there with case trees (if-conversion) and continue once; arms that leave the function
+        before the join keep their own value"""
+        join = fn.ipdom().get(bb, -1)
+        if join == -1 or (self.stop is not None and fn.path == self.stop[0] and join not in self.stop[2]) or visits.get(join, 0) > 0 and join == bb:
+            join = None
+        if join is None:
+            tree = self._branch(fn, t, d, dty, env, visits, depth, until)
+            return tree
+        tree = self._branch(fn, t, d, dty, env, visits, depth, join)
+        ls = _leaves(tree, [])
+        jl = [x for x in ls if isinstance(x, tuple) and x and x[0] == "@join"]
+        if not jl:
+            return tree
+        if len(jl) == len(ls):
+            envs = {x[1]: self._joins[x[1]][0] for x in jl}
+            keys = set()
+            for e in envs.values():
+                keys |= set(e)
+            merged = {}
+            first = next(iter(envs.values()))
+            for l in keys:
+                vals = {jid: e.get(l, ("uninit",)) for jid, e in envs.items()}
+                if all(v == vals[jl[0][1]] for v in vals.values()):
+                    merged[l] = vals[jl[0][1]]
+                else:
+                    merged[l] = map_leaves(tree, lambda leaf, vals=vals: vals[leaf[1]])
+            v2 = self._joins[jl[0][1]][1]
+            for x in jl:
+                self._joins.pop(x[1], None)
+            return self._run(fn, join, merged, v2, depth, until)
+        # mixed: continue every arm that reached the join separately
+
+        def cont(leaf):
+            if isinstance(leaf, tuple) and leaf and leaf[0] == "@join":
+                e, v = self._joins.pop(leaf[1])
+                return self._run(fn, join, e, v, depth, until)
+            return leaf
+        return map_leaves(tree, cont)
+
+    def _branch(self, fn, t, d, dty, env, visits, depth, until=None):
+        src = self._discr_src.get(d)
+        if src is not None and src[0] == "cases":
+            # branching on the discriminant of a value that is itself a case tree: split on that tree's own arms and
+            # refine the environment (the value *is* the arm's leaf on that path)
+            arms = []
+            for rs, leaf in src[3]:
+                env2 = {l: (leaf if v == src else v) for l, v in env.items()}
+                dl = self.discriminant(leaf)
+                if leaf[0] in ("cases", "ite") and dl[0] in ("cases", "ite"):
+                    self._discr_src[dl] = leaf
+                if is_c(dl):
+                    nxt = t["otherwise"]
+                    for val, tgt in t["arms"]:
+                        if int(val) == dl[1]:
+                            nxt = tgt
+                            break
+                    arms.append((rs, self._run(fn, nxt, env2, visits, depth, until)))
+                else:
+                    arms.append((rs, self._branch(fn, t, dl, dty, env2, visits, depth, until)))
+            return mk_cases(src[1], src[2], tuple(arms))
         if d[0] in ("cases", "ite") and visits is not None:
             # split on the scrutinee's own case structure first: each leaf is then simpler (often constant)
             def leaf(x):
@@ -612,18 +802,18 @@ class Evaluator:
                         if int(val) == x[1]:
                             nxt = tgt
                             break
-                    return self._run(fn, nxt, dict(env), visits, depth)
-                return self._branch_plain(fn, t, x, dty, env, visits, depth)
+                    return self._run(fn, nxt, dict(env), visits, depth, until)
+                return self._branch_plain(fn, t, x, dty, env, visits, depth, until)
             return map_leaves(d, leaf)
-        return self._branch_plain(fn, t, d, dty, env, visits, depth)
+        return self._branch_plain(fn, t, d, dty, env, visits, depth, until)
 
-    def _branch_plain(self, fn, t, d, dty, env, visits, depth):
+    def _branch_plain(self, fn, t, d, dty, env, visits, depth, until=None):
         if dty == "bool":
             tgt = {int(v): b for v, b in t["arms"]}
             bt = tgt.get(1, t["otherwise"])
             bf = tgt.get(0, t["otherwise"])
-            vt = self._run(fn, bt, dict(env), visits, depth)
-            vf = self._run(fn, bf, dict(env), visits, depth)
+            vt = self._run(fn, bt, dict(env), visits, depth, until)
+            vf = self._run(fn, bf, dict(env), visits, depth, until)
             if vt == ("unreachable",):
                 return vf
             if vf == ("unreachable",):
@@ -635,19 +825,19 @@ class Evaluator:
         for val, tgt in t["arms"]:
             v = wrap(int(val), ty)
             env2 = self._refine(fn, dict(env), t, d, v)
-            arms.append((((v, v),), self._run(fn, tgt, env2, visits, depth)))
+            arms.append((((v, v),), self._run(fn, tgt, env2, visits, depth, until)))
             taken.append((v, v))
         rest = rs_compl(tuple(taken), ty)
         if d[0] == "discr":
             # only the enum's other variants are possible
-            other = self._run(fn, t["otherwise"], dict(env), visits, depth)
+            other = self._run(fn, t["otherwise"], dict(env), visits, depth, until)
             if other != ("unreachable",):
                 arms.append((rest, other))
             else:
                 # fold the unreachable default into nothing: domain is the listed variants
                 arms.append((rest, ("unreachable",)))
         else:
-            arms.append((rest, self._run(fn, t["otherwise"], dict(env), visits, depth)))
+            arms.append((rest, self._run(fn, t["otherwise"], dict(env), visits, depth, until)))
         # drop unreachable arms (their ranges are outside the value's real domain)
         live = [(rs, x) for rs, x in arms if x != ("unreachable",)]
         if len(live) == 1:
@@ -666,6 +856,31 @@ class Evaluator:
         args = [self.operand(fn, env, a) for a in t["args"]]
         name = callee_name(t)
         declared = t.get("callee") or ""
+        if name == RANGE_NEXT and args and args[0][0] == "mref" and not args[0][2]:
+            cur = env.get(args[0][1], ("uninit",))
+            if cur[0] == "adt" and cur[1] == "core::ops::range::Range":
+                lo, hi = fld(cur, "start"), fld(cur, "end")
+                if is_c(lo) and is_c(hi):
+                    if lo[1] < hi[1]:
+                        env[args[0][1]] = adt(cur[1], cur[2], (("start", C(lo[1] + 1, lo[2])), ("end", hi)))
+                        return some(lo)
+                    return NONE
+                # symbolic bounds: one step of the iterator as a closed form
+                c = binop("Lt", lo, hi, lo[2] if is_c(lo) else (hi[2] if is_c(hi) else self._int_ty(t)))
+                ty = self._int_ty(t)
+                env[args[0][1]] = adt(cur[1], cur[2], (("start", ite(c, binop("Add", lo, C(1, ty), ty), lo)), ("end", hi)))
+                return ite(c, some(lo), NONE)
+            raise Undecided("Range::next on a value that is not a Range aggregate")
+        if any(a[0] == "mref" for a in args if isinstance(a, tuple) and a):
+            m0 = self.models.get(name) or self.models.get(declared)
+            if m0 is None:
+                # unknown effect on the borrowed local: its value becomes an opaque function of the call
+                vals = [self._mref_get(env, a) if a[0] == "mref" else a for a in args]
+                res = ("call", name, tuple(vals))
+                for i, a in enumerate(args):
+                    if a[0] == "mref":
+                        self._mref_set(env, a, ("mutated", name, i, tuple(vals)))
+                return res
         for key in (name, declared):
             m = self.models.get(key)
             if m is not None:
@@ -677,7 +892,23 @@ class Evaluator:
         target = self.prog.fn(name) or self.prog.fn(declared)
         if target is not None and target.path not in self.opaque_local and not target.is_coroutine:
             return self.eval_fn(target, args, depth + 1)
+        if target is not None and t.get("targs"):
+            # keep the instantiation visible for opaque generic helpers (deserialize::<R, Header> vs ::<R, Block>)
+            tys = [x["d"]["s"] for x in t["targs"] if x["d"].get("k") != "param"]
+            if tys:
+                name = "%s::<%s>" % (name, ", ".join(tys))
         return ("call", name, tuple(args))
+
+    def _int_ty(self, t):
+        for ta in t.get("targs", []):
+            s = ta["d"]["s"]
+            if s in INT_TYS:
+                return s
+            if "Range<" in s:
+                inner = s.split("Range<")[1].split(">")[0]
+                if inner in INT_TYS:
+                    return inner
+        return "usize"
 
     def apply_closure(self, clo, args, depth):
         """call a closure/fn term with argument terms"""
@@ -704,6 +935,7 @@ class Evaluator:
         return ("p", "%s#%d" % (hint, self.fresh))
 
 
+RANGE_NEXT = "core::iter::range::<impl core::iter::traits::iterator::Iterator for core::ops::range::Range<A>>::next"
 STD_ENUMS = {"core::option::Option": ["None", "Some"], "core::result::Result": ["Ok", "Err"],
              "core::ops::control_flow::ControlFlow": ["Continue", "Break"]}
 
@@ -1008,8 +1240,21 @@ def is_uom_new(name):
 
 
 # ---------------------------------------------------------------- rebuilding / substitution
-def rebuild(t, sub):
-    """re-normalise t bottom-up after substituting sub (dict term->term)"""
+def vfld(base, variant, name):
+    if base[0] == "adt":
+        if base[2] == variant:
+            for n, v in base[3]:
+                if n == name:
+                    return v
+        return ("unreachable",)
+    if base[0] in ("cases", "ite"):
+        return map_leaves(base, lambda x: vfld(x, variant, name))
+    return ("vfld", base, variant, name)
+
+
+def rebuild(t, sub, known=None):
+    """re-normalise t bottom-up after substituting sub (dict term->term); `known` maps a scrutinee term to the
+    rangeset it is known to lie in (case trees over it are cut down to the arms that remain possible)"""
     if t in sub:
         return sub[t]
     if not isinstance(t, tuple) or not t:
@@ -1017,7 +1262,15 @@ def rebuild(t, sub):
     k = t[0]
     if k in ("c", "p", "fnptr", "const", "unreachable", "panic", "uninit"):
         return t
-    r = lambda x: rebuild(x, sub)
+    r = lambda x: rebuild(x, sub, known)
+    if k == "vfld":
+        return vfld(r(t[1]), t[2], t[3])
+    if k == "cases" and known and t[1] in known:
+        kr = known[t[1]]
+        arms = [(rs_inter(rs, kr), x) for rs, x in t[3]]
+        arms = [(rs, r(x)) for rs, x in arms if rs]
+        if len(arms) == 1:
+            return arms[0][1]
     if k == "fld":
         return fld(r(t[1]), t[2])
     if k == "bin":
